@@ -19,6 +19,7 @@ structure DState where
   rates : RateStore := []
   abs : AbsState := .none
   reg : PsVerif.Model.Service.Reg := ⟨[], []⟩
+  regPending : Option PsVerif.Model.Service.Entry := none   -- a request whose first half has run
   pol : Option PsVerif.Model.PolicyFile.St := none
   sync : Option SyncState := none
 
@@ -49,6 +50,9 @@ def step (st : DState) (ws : List String) : DState × String :=
   | none =>
   match handleRegistry st.reg ws with
   | some (g, r) => ({ st with reg := g }, r)
+  | none =>
+  match handleInflight st.reg st.regPending ws with
+  | some (g, p, r) => ({ st with reg := g, regPending := p }, r)
   | none =>
   match handlePolicy st.pol ws with
   | some (p, r) => ({ st with pol := p }, r)
